@@ -6,6 +6,7 @@ import torch
 from gymnasium import spaces
 from hypothesis import strategies as st
 
+from vp.core import engine
 from vp.core.engine import Obligation, Property
 from vp.gen import agents as ag
 from vp.gen import spaces as sp
@@ -85,7 +86,7 @@ def run_sampler_feeds_learn(case, ctx):
 
 @st.composite
 def sfl_strategy(draw, tier):
-    algo = draw(st.sampled_from(OFF_ALGOS))
+    algo = draw(st.sampled_from(engine.stratum(OFF_ALGOS)))
     return {"algo": algo, "obs": draw(st.sampled_from(OBS)), "obsv": draw(st.integers(0, 2)), "actv": draw(st.integers(0, 2)),
             "act": draw(st.sampled_from(["box", "box_asym", "box_perdim"])),
             "seed": draw(st.integers(0, 10_000)), "envs": draw(st.integers(1, 3)), "steps": draw(st.integers(6, 12)),
@@ -116,7 +117,7 @@ def loops_strategy(draw, tier):
     from vp.props.c20_loops import LOOP_ALGOS
 
     loop = draw(st.sampled_from(["off_policy", "off_policy", "on_policy", "offline", "bandits", "ma_off", "ma_on"]))
-    algo = draw(st.sampled_from(LOOP_ALGOS[loop]))
+    algo = draw(st.sampled_from(engine.stratum(LOOP_ALGOS[loop])))
     if loop == "bandits":
         obs, envs = "vector", 0
     elif loop in ("ma_off", "ma_on"):
